@@ -143,7 +143,7 @@ def draw_params(draw, name, t, opts, depth_left, no_ct, tainted=False):
     if name == 'distinct':
         return [name, draw(ints(2, 3)) if (A.isint(t) and draw(st.booleans())) else 0]
     if name == 'lag':
-        return [name, draw(ints(1, 3))]
+        return [name, draw(ints(1, 3)), draw(st.sampled_from([None, None, 'float', 'int']))]       # the documented data_type option
     if name in ('pad_start', 'pad_end'):
         v = draw(st.one_of(st.none(), ints(-1, 9))) if A.isint(t) else None
         return [name, draw(ints(0, 3)), v]
@@ -157,7 +157,7 @@ def draw_params(draw, name, t, opts, depth_left, no_ct, tainted=False):
         s = draw(ints(1, 5))
         return [name, w, s, draw(chain(t, opts, depth_left - 1, no_ct=False, tainted=tainted))]
     if name == 'split':
-        return [name, draw(st.sampled_from(['div', 'mod', 'nonemod', 'gkey', 'nanmod'])), draw(ints(2, 3)), draw(chain(t, opts, depth_left - 1, no_ct=False, tainted=tainted))]
+        return [name, draw(st.sampled_from(['div', 'mod', 'nonemod', 'gkey', 'nanmod', 'tokdiv'])), draw(ints(2, 3)), draw(chain(t, opts, depth_left - 1, no_ct=False, tainted=tainted))]
     if name == 'time_split':
         active = draw(st.sampled_from([None, 1, 3, 5, 8, 0]))
         inactive = draw(st.sampled_from([None, 1, 2, 3, 0]))
